@@ -536,7 +536,8 @@ PROPS["C01"]["level_text"] += (
     "effect is asked for each frame exactly once in slices <= ibs (C01_system_each_component_once)")
 PROPS["C01"]["level_note"] += (
     "; the whole-system twin covers static sounds, the eight effects, track trees/sends, clocks, LFO/tweener modulators and rate "
-    "changes - NOT streaming sounds, spatial tracks/listeners or exhausted capacities (those stay with suite system); real components' "
+    "changes, and (since w-sysspat) listeners and spatial sub-tracks with listener-distance-mapped parameters (Props/C15_system.lean) - NOT "
+    "streaming sounds or exhausted capacities (those stay with suite system); real components' "
     "chunk-freedom is proved for depth-0 effects at rest only (C01_real_components_chunk_free_partial), the buffer-size invariance of "
     "whole real scenes is checked on kira itself by the bit-exact oracle buffer_size_invariance")
 
@@ -556,4 +557,6 @@ PROPS["C15"]["level_text"] += (
     "C15_system_dropped_listener_absent); with the listener present its signal is track gain x mono mix x distance "
     "amplitude x ear gain of its subtree's signal, frame by frame (C15_system_level_product); every track at any depth "
     "looks listeners up in the environment's arena and the innermost spatial track's distance wins "
-    "(C15_system_listener_lookup)")
+    "(C15_system_listener_lookup); in every reachable state (all scenes, all histories) the tracks are clean, so a "
+    "top-level spatial track whose listener was dropped is exactly silent in the next callback "
+    "(C15_system_reachable_dropped_listener_silent)")
